@@ -154,7 +154,7 @@ fn framebuffer_all() -> Result<(), String> {
         let got = tag.buffer_type();
         let ok = match (b, &got) {
             (0, Ok(m::FramebufferType::Indexed { .. })) | (1, Ok(m::FramebufferType::RGB { .. })) | (2, Ok(m::FramebufferType::Text)) => true,
-            (x, Err(e)) if x > 2 => format!("{e}") == format!("Unknown framebuffer type {x}"),
+            (x, Err(e)) if x > 2 => mb2_model::exercise_mbi::fb_err(e) == mb2_model::Val::Err(format!("unknown-framebuffer-type:{x}")),
             _ => false,
         };
         if !ok {
